@@ -3,27 +3,27 @@
 import json, subprocess
 claimed = {
  "C04": ("exploration", "§5 C04",
-   "Seeded deterministic-simulation search over envelope histories that start from the source document as a user wrote it (the first calculation happens inside the run; business edits incl. unusual-but-legal spellings, mixed rate keys, breakdowns, discounts, advances, replaced addons; header entries; calculate via library and via cli.Build over a faulty-but-benign simulated stream, persist / crash-restart / lost write / re-encoding of the durable bytes, fake-clock jumps up to decades, entropy reseeds, read-only operations, k-fold repetition). Oracles: calculate on a calculated envelope is the byte identity across any number of restarts and clock positions; parse∘serialise is the identity on every byte string the system produced; read-only operations leave the bytes unchanged; identifiers and dates never change once set. Sampling, not proof: the right level because the property quantifies over unbounded histories and the only nondeterminism that matters (clock, entropy, in-memory vs durable state, map order) is owned or sampled by the simulator.",
-   "Corpus = shipped example documents + seeded business edits. Map iteration order is sampled by repetition (not a seam). gobl is compiled with go1.26.8 for testing/synctest and testing/cryptotest.",
+   "Seeded deterministic-simulation search over envelope histories that start from the source document as a user wrote it (the first calculation happens inside the run; business edits incl. unusual-but-legal spellings, mixed rate keys, breakdowns, discounts, advances, replaced addons, and the conditions of every published scenario of the document's regime and addons (type, tags, extension codes on lines); header entries; calculate via library and via cli.Build over a faulty-but-benign simulated stream, persist / crash-restart / lost write / re-encoding of the durable bytes, fake-clock jumps up to decades, entropy reseeds, read-only operations, k-fold repetition). Oracles: calculate on a calculated envelope is the byte identity across any number of restarts and clock positions; parse∘serialise is the identity on every byte string the system produced; read-only operations leave the bytes unchanged; identifiers and dates never change once set; a sample of the histories (a quarter, plus every history that brings a document under a published scenario) is executed a second time by another OS process and every recorded output must be byte-identical ('regardless of process'). Sampling, not proof: the right level because the property quantifies over unbounded histories and the only nondeterminism that matters (clock, entropy, in-memory vs durable state, map order) is owned or sampled by the simulator.",
+   "Corpus = shipped example documents + seeded business edits. Map iteration order is not a seam Go offers: per-range order is sampled by repetition inside a process, per-process order (hash seed, order in which package-level maps were filled) by the second process; a replay of a process-dependent violation compares against four fresh processes. gobl is compiled with go1.26.8 for testing/synctest and testing/cryptotest.",
    "deterministic simulation: seeded histories with crash/restart, lost-write, re-encode and clock-jump faults against a byte-identity oracle"),
  "C08": ("fault_enumeration", "§5 C08",
    "Storage-fault enumeration between persist and restore of a calculated (and signed) envelope: thorough enumerates every JSON pointer of every corpus envelope with every applicable single content-changing fault (alter leaf, remove member, add member, swap/delete/duplicate array element, raw bit flip inside value bytes) and seeded content-preserving re-encodings (member order, whitespace, escape style); quick takes a seeded sample of pointer blocks. Oracle: re-encodings validate and recalculate to the same digest; every content change is refused on restore (parse error, validation error or digest error) and, after recalculation, yields a different digest whenever the recalculated content differs. A third sub-check applies the same clause to a change made in memory (typed API) after a restore; faults on the stored digest itself are included.",
    "Faults are restricted to changes that are semantic under any reading (no case-only changes, no renames, no unknown member names). 'Add member' candidates come from the corpus, not the schema files. One open known finding ($regime removal).",
    "deterministic fault enumeration over durable bytes (single storage fault per restore) with digest/validation oracle"),
  "C09": ("exploration", "§5 C09",
-   "Seeded deterministic-simulation histories sign → modify → present, checked against a reference model of what the signature covers (a harness-owned snapshot of the seven header fields taken at signing). Every history presents the envelope to all seven verification entry points (Envelope.Verify, Envelope.VerifySignature, cli.Verify over a chunked simulated stream, bulk verify via cli.Bulk, HTTP /verify and /bulk handlers, the `gobl verify` cobra command) with the signer's key, another key and no key; an enumerated floor covers each header field × {alter, remove, add} × {with, without recalculation} per base document; longer seeded histories add crash-restart, lost write and re-encoding between signing and presentation. All entry points must agree with the model: success exactly when the header still contains what was signed, the key is the signer's and the envelope validates.",
+   "Seeded deterministic-simulation histories sign → modify → present, checked against a reference model of what the signature covers (a harness-owned snapshot of the seven header fields taken at signing). Every history presents the envelope to all seven verification entry points (Envelope.Verify, Envelope.VerifySignature, cli.Verify over a chunked simulated stream, bulk verify via cli.Bulk, HTTP /verify and /bulk handlers, the `gobl verify` cobra command) with the signer's key, another key and no key; signing itself (first signature and re-signing after later changes) is also requested through cli.Sign, the bulk sign action (CLI and HTTP) and `gobl sign`, and must give the library's verdict and content, exactly one more signature, the newest made by the key and covering the header it is in; an enumerated floor covers each header field × {alter, remove, add} × {with, without recalculation} per base document; longer seeded histories add crash-restart, lost write and re-encoding between signing and presentation. All entry points must agree with the model: success exactly when the header still contains what was signed, the key is the signer's and the envelope validates.",
    "Single-signer envelopes. The library's Verify is not asserted on documents edited without recalculation (header-only check by design); CLI paths must refuse those. Keys are fixed JWK constants; signature bytes are never compared, only outcomes.",
    "deterministic simulation: sign/modify/restart histories against a header-snapshot reference model, cross-checked over 7 entry points"),
  "C10": ("exploration", "§5 C10",
-   "Refinement of the envelope API against a small executable reference model (digest-matches fact, document validity facts, signature list with header snapshots, header rules) over histories: exhaustive enumeration of every operation sequence up to length 3 (quick) / 4 (thorough) over a 15-operation alphabet and, in thorough, of every sequence of length 5 and 6 over an 8-operation core alphabet, on three base documents (two invoices and an order), plus seeded longer histories over 12 base documents of 6 document types with crash-restart, lost-write, re-encoding and damaged-signature-list faults injected between operations. Each step's outcome (ok / error key / signature count) must equal the model's prediction; after every step every entry of the signature list must be a real JWS, or, when the list was damaged on disk, the envelope must be refused by validation and verification without panicking.",
+   "Refinement of the envelope API against a small executable reference model (digest-matches fact, document validity facts, signature list with header snapshots, header rules) over histories: exhaustive enumeration of every operation sequence up to length 3 (quick) / 4 (thorough) over a 15-operation alphabet and, in thorough, of every sequence of length 5 and 6 over an 8-operation core alphabet, on three base documents (two invoices and an order), plus seeded longer histories over 12 base documents of 6 document types with crash-restart, lost-write, re-encoding and damaged-signature-list faults injected between operations. Each step's outcome (ok / error key / signature count) must equal the model's prediction; in the seeded histories sign and validate steps are also put through cli.Sign / cli.Validate, the bulk actions (CLI and HTTP) and the cobra commands on the serialised envelope, where they must give the library's verdict for the same bytes; after every step every entry of the signature list must be a real JWS, or, when the list was damaged on disk, the envelope must be refused by validation and verification without panicking.",
    "Which documents are structurally valid is asked of the implementation on a fresh parse of the same bytes (the property is about how the facts combine over histories). After a signing that fails before appending, 'unchanged' and 'unsigned' are both accepted.",
    "deterministic simulation: exhaustive short histories + seeded long histories with restart faults, refinement against an executable reference model"),
  "C16": ("exploration", "§5 C16",
-   "Seeded deterministic-simulation runs over every corpus invoice: the source envelope is optionally stamped (with the stamps its regime requires), signed and crash-restarted or re-encoded, the fake clock is placed at a seeded instant (day changes in UTC and in the regime's zone included), then the envelope is corrected (every invoice type × option subsets, Go options and raw JSON) or replicated through the library, cli.Correct/Replicate over a chunked simulated stream, the bulk action (CLI and HTTP) and the cobra command at the same instant. Oracles: source bytes identical after the operation and after every later in-place mutation of the result (and vice versa); result unsigned, unstamped, new identifiers, no code, requested type, exactly one preceding reference with the source's identifier/type/series/code/date plus reason, extensions and required stamps, freshly calculated; refusal exactly as the published data/regimes and data/addons correction definitions demand; replica keeps parties and line inputs and is dated today; all entry points return the same document.",
+   "Seeded deterministic-simulation runs over every corpus invoice: the source envelope is optionally stamped (with the stamps its regime requires), signed and crash-restarted or re-encoded, the fake clock is placed at a seeded instant (day changes in UTC and in the regime's zone included), then the envelope is corrected (every invoice type × option subsets, Go options and raw JSON; sources also with their addons removed, replaced, or combined with further addons of the same regime so that several correction definitions apply at once) or replicated through the library, cli.Correct/Replicate over a chunked simulated stream, the bulk action (CLI and HTTP) and the cobra command at the same instant. Oracles: source bytes identical after the operation and after every later in-place mutation of the result (and vice versa); result unsigned, unstamped, new identifiers, no code, requested type, exactly one preceding reference with the source's identifier/type/series/code/date plus reason, extensions and required stamps, freshly calculated; refusal exactly as the published data/regimes and data/addons correction definitions demand; replica keeps parties and line inputs and is dated today; all entry points return the same document.",
    "Refusal is predicted from the published JSON definitions; 'today' may be the UTC or the regime-local date; sources without a code are skipped.",
    "deterministic simulation: clock/entropy-controlled correct/replicate histories with post-operation mutation (aliasing) and cross-entry-point agreement oracles"),
  "C12": ("exploration", "§5 C12",
-   "Clock-driven simulation, exhaustive over the published tables × boundary dates: for every data/regimes/*.json table, category, rate key, dated value and tag-/extension-qualified variant, tax dates start−1, start, start+1, before-first-value and far-future (plus seeded dates in thorough) are realised by the simulated clock (local 00:00:00, 12:00:00 and 23:59:59 of the date in the regime's time zone, document without dates; one forward walk of ~30 simulated years per regime), by an explicit issue date and by an explicit value date. Oracle from the published JSON: latest start ≤ D among applicable values, a value taking effect on its start date, exempt keys give no percent, no applicable value is an error, unqualified values strictly descending, and the issue date written equals the regime-local date of the simulated instant.",
+   "Clock-driven simulation, exhaustive over the published tables × boundary dates: for every data/regimes/*.json table, category, rate key, dated value and tag-/extension-qualified variant, tax dates start−1, start, start+1, before-first-value and far-future (plus seeded dates in thorough) are realised by the simulated clock (local 00:00:00, 12:00:00 and 23:59:59 of the date in the regime's time zone, document without dates; one forward walk of ~30 simulated years per regime), by an explicit issue date and by an explicit value date; every explicit case is repeated with the combo carrying a stale percent and surcharge from an earlier calculation. Oracle from the published JSON: latest start ≤ D among applicable values, a value taking effect on its start date, exempt keys give no percent, no applicable value is an error, unqualified values strictly descending, and the issue date written equals the regime-local date of the simulated instant.",
    "Oracle tables are the published JSON files, not the Go structs; ties between applicable values accept any of the tied values; the fake clock only moves forward from 2000-01-01, earlier dates are realised explicitly.",
    "deterministic simulation: fake clock walked through every rate-change boundary in each regime's time zone, oracle from published tables"),
  "C07": ("fault_enumeration", "§5 C07",
